@@ -402,3 +402,32 @@ Proof. exact ex_wrap_run. Qed.
 
 Example C02_wrap_ex_addr_inj : addr_inj ex_addr.
 Proof. exact ex_addr_inj. Qed.
+
+(* ====================================================================================== *)
+(* Audit C02 (low): the after-history statements are over [run]; the correspondence ([CaseC02.run02]) runs the guarded
+   [CaseMut.run_chk], and load histories run [MachineLoad.run_x].  The same statements for those two. *)
+From NT Require Import CaseMut CaseMutFacts MachineLoad MachineLoadProofs.
+
+Theorem C02_after_history_chk : forall ops t, In t (trees (run_chk ops empty_world)) -> WF t.
+Proof.
+  intros ops t Ht. destruct (run_chk_reachable ops empty_world) as (ops' & _ & E). rewrite E in Ht.
+  exact (wf_after_history ops' empty_world t WFw_empty Ht).
+Qed.
+Print Assumptions C02_after_history_chk.
+
+Theorem C02_find_all_after_history_chk : forall ops t d, In t (trees (run_chk ops empty_world)) ->
+  Permutation (lk_find_all_did t d) (nodes_with (forest_of t) d).
+Proof. intros ops t d Ht. apply find_all_exact. now apply (C02_after_history_chk ops). Qed.
+Print Assumptions C02_find_all_after_history_chk.
+
+Theorem C02_after_load_history : forall ops t, In t (trees (run_x ops empty_world)) -> WF t.
+Proof.
+  intros ops t Ht. assert (X := WFw_run_x ops empty_world WFw_empty). destruct X as [X _ _ _].
+  rewrite Forall_forall in X. now apply X.
+Qed.
+Print Assumptions C02_after_load_history.
+
+Theorem C02_find_all_after_load_history : forall ops t d, In t (trees (run_x ops empty_world)) ->
+  Permutation (lk_find_all_did t d) (nodes_with (forest_of t) d).
+Proof. intros ops t d Ht. apply find_all_exact. now apply (C02_after_load_history ops). Qed.
+Print Assumptions C02_find_all_after_load_history.
